@@ -510,6 +510,23 @@ func buildContext(c AVMap) pongo2.Context {
 	ctx := pongo2.Context{}
 	for k, v := range c {
 		ctx[k] = concretise(v)
+		// names starting with "ty": the same sequence as a Go slice with an element type of its own ([]int, []string)
+		if l, ok := ctx[k].([]interface{}); ok && strings.HasPrefix(k, "ty") && len(l) > 0 {
+			switch l[0].(type) {
+			case int:
+				t := make([]int, len(l))
+				for i := range l {
+					t[i] = l[i].(int)
+				}
+				ctx[k] = t
+			case string:
+				t := make([]string, len(l))
+				for i := range l {
+					t[i] = l[i].(string)
+				}
+				ctx[k] = t
+			}
+		}
 	}
 	return ctx
 }
